@@ -2,7 +2,7 @@
 from ..props import CHECKS
 from .. import conccheck
 
-KINDS = ("nonlin",)
+KINDS = ("nonlin", "tempdup")
 
 
 def check_C06(ctx):
